@@ -46,8 +46,11 @@ func TestVerifC20(t *testing.T) {
 		auths := make([]*Authority, n+1)
 		block := hotstuff.NewBlock(hotstuff.GetGenesis().Hash(), hotstuff.NewQuorumCert(nil, 0, hotstuff.GetGenesis().Hash()), &clientpb.Batch{}, 1, 1)
 		for i := 1; i <= n; i++ {
+			// the membership grows after the Authority was created and first used (replicas are added
+			// one by one while a replica starts): the threshold must follow the configuration
 			cfg := core.NewRuntimeConfig(hotstuff.ID(i), keys[i])
-			for j := 1; j <= n; j++ {
+			half := (n + 1) / 2
+			for j := 1; j <= half; j++ {
 				cfg.AddReplica(&hotstuff.ReplicaInfo{ID: hotstuff.ID(j), PubKey: keys[j].Public()})
 			}
 			logger := logging.NewWithDest(io.Discard, "c20")
@@ -59,6 +62,11 @@ func TestVerifC20(t *testing.T) {
 				t.Fatal(err)
 			}
 			auths[i] = NewAuthority(cfg, bc, base)
+			_ = auths[i].VerifyQuorumCert(hotstuff.NewQuorumCert(nil, block.View(), block.Hash()))
+			_ = auths[i].VerifyTimeoutCert(hotstuff.NewTimeoutCert(nil, 7))
+			for j := half + 1; j <= n; j++ {
+				cfg.AddReplica(&hotstuff.ReplicaInfo{ID: hotstuff.ID(j), PubKey: keys[j].Public()})
+			}
 		}
 		q := hotstuff.QuorumSize(n)
 		for k := 1; k <= n; k++ {
